@@ -874,7 +874,7 @@ SHARED = {
     "C11": [("c03", "r03_11_trusted_instants"), ("c10", "r10_14_borrow_and_carry_use_the_right_year"), ("c13", "r13_2_zone_interval_cache"), ("c06", "r06_11_fixed_zone_table"), ("c04", "r04_13_wall_offset_decides_local_time"), ("c03", "r03_16_unit_factories_split_exactly"), ("c10", "r10_16_double_carry_is_symmetric")],
     "C15": [("c03", "r03_11_trusted_instants"), ("c02", "r02_5_leap_decisions"), ("c03", "r03_15_duration_truncated_views"), ("c01", "r01_14_gregorian_fast_tables"), ("c01", "r01_5_per_year_consistency")],
     "C14": [("c03", "r03_14_tick_arithmetic")],
-    "C07": [("c08", "r08_7_embedded_fields"), ("c17", "r17_8_variable_precision_predicates"), ("c08", "r08_10_field_set_tests"), ("c17", "r17_7_sign_predicates")],
+    "C07": [("c08", "r08_7_embedded_fields"), ("c17", "r17_8_variable_precision_predicates"), ("c08", "r08_10_field_set_tests"), ("c17", "r17_7_sign_predicates"), ("c17", "r17_2_exact_arithmetic")],
     "C05": [("c01", "r01_cfp_calendar_free_productions"), ("c04", "r04_12_cache_periods_stay_in_range"), ("c13", "r13_2_zone_interval_cache")],
     "C10": [("c03", "r03_6_rounding_helpers_exact")],
     "C08": [("c09", "r09_17_computed_values_overflow")],
